@@ -222,3 +222,26 @@ MUTANTS += [
     dict(id="x14-then-some-negated", base="benign4/C03/B.diff", fires=["C14"], key="known", edits=[("src/webauthn.rs",
          ".contains(&alg)\n            .then_some(Self { alg })", ".contains(&alg)\n            .then_some(Self { alg: -alg })")]),
 ]
+
+# round 5: mutated refactorings (the refactored form must still be *read*, not merely tolerated)
+MUTANTS += [
+    dict(id="x14-shared-visitor-swallows-error", base="benign5/C04/B.diff", fires=["C14"], key="C14|algs", edits=[("src/webauthn.rs",
+         "while let Some(value) = seq.next_element::<T>()? {", "while let Ok(Some(value)) = seq.next_element::<T>() {")]),
+    dict(id="x14-shared-visitor-push-unwrapped", base="benign5/C04/B.diff", fires=["C14"], key="algs", edits=[("src/webauthn.rs",
+         "values.0.push(el).ok();", "values.0.push(el).unwrap();")]),
+    dict(id="x14-shared-visitor-flag-dropped", base="benign5/C04/B.diff", fires=["C14"], key="formats", edits=[("src/ctap2.rs",
+         "                preference.unknown = true;\n", "                let _ = &preference;\n")]),
+    dict(id="x14-helper-closure-skips-first", base="benign5/C01/B.diff", fires=["C14"], key="C14|algs", edits=[("src/webauthn.rs",
+         "    while let Some(element) = seq.next_element::<T>()? {\n        f(element);\n    }\n    Ok(())",
+         "    let _ = seq.next_element::<T>()?;\n    while let Some(element) = seq.next_element::<T>()? {\n        f(element);\n    }\n    Ok(())")]),
+    dict(id="x19-counted-loop-one-too-many", base="benign5/C19/A.diff", fires=["C19"], key="arbitrary_vec", edits=[("src/arbitrary.rs",
+         "for _ in 0..len {", "for _ in 0..=len {")]),
+    dict(id="x19-counted-loop-wrong-bound", base="benign5/C19/A.diff", fires=["C19"], key="arbitrary_vec", edits=[("src/arbitrary.rs",
+         "let len = u.int_in_range(0..=max_len)?;", "let len = u.int_in_range(0..=max_len + 1)?;")]),
+    dict(id="x17-helper-wrong-empty-map", base="benign5/C17/B.diff", fires=["C17"], key="C17|", edits=[("src/ctap2.rs",
+         "[0xA0] => 0,", "[0xA0] => 1,")]),
+    dict(id="x13-icon-from-string", base="benign5/C06/A.diff", fires=["C13"], key="icon", edits=[("src/webauthn.rs",
+         '#[serde(from = "&str")]', '#[serde(from = "String<64>")]'), ("src/webauthn.rs", "impl From<&str> for Icon {", "impl From<String<64>> for Icon {"),
+         ("src/webauthn.rs", "fn from(_icon: &str) -> Self {", "fn from(_icon: String<64>) -> Self {")]),
+]
+
